@@ -264,7 +264,7 @@ def tie_shape(classes):
 
 
 INT_ENC = ["int", "int_relabel"]
-ALL_ENC = ["int", "int_relabel", "float", "mixed", "bool", "huge", "zero_neg", "small_ints", "half_grid", "close", "scores", "scores_small", "scores_float", "scores_huge", "omitted"]
+ALL_ENC = ["int", "int_relabel", "float", "mixed", "bool", "huge", "zero_neg", "small_ints", "half_grid", "close", "runaway", "scores", "scores_small", "scores_float", "scores_huge", "scores_runaway", "omitted"]
 
 
 @st.composite
@@ -291,6 +291,16 @@ def _increasing(draw, m, kind):
             out.append(cur)
             cur -= g
         return list(reversed(out))
+    if kind == "runaway":
+        # one runaway value far from a cluster of close, ordinary ones (a score of 1e18 next to 5400.0 and 5399.0): what `x - max` or
+        # float conversion absorbs
+        far = draw(st.sampled_from([1e18, 1e300, 10 ** 30, 2.0 ** 60, 1e16, 123456789012345678]))
+        start = draw(st.sampled_from([0, 5399, -3, 0.5, 1000.25]))
+        step = draw(st.sampled_from([1, 1, 0.5, 0.001]))
+        cluster = [start + i * step for i in range(m - 1)]
+        if draw(st.booleans()):
+            cluster = [float(v) for v in cluster]
+        return ([-far] + cluster) if draw(st.booleans()) else (cluster + [far])
     if kind == "half_grid":
         # a small grid of halves, ints where integral (0, 0.5, 1, 1.5, ...): endpoints and integer values coincide with what positional
         # ranks look like ([0, 0.5, 2] spans exactly 0..n-1 without being a permutation of it)
@@ -338,8 +348,17 @@ def _increasing(draw, m, kind):
         pool = sorted(set(pool))
         for a, b in zip(pool, pool[1:]):
             assert a < b
-        idx = sorted(draw(st.lists(st.integers(0, len(pool) - 1), min_size=m, max_size=m, unique=True)))
-        return [pool[i] for i in idx]
+        idx = set(draw(st.lists(st.integers(0, len(pool) - 1), min_size=m, max_size=m, unique=True)))
+        if m >= 2 and draw(st.integers(0, 2)) > 0:
+            # make sure a pair of NEIGHBOURS that only exact comparison separates is among the values (both members)
+            pairs = [i for i in range(len(pool) - 1) if float(pool[i]) == float(pool[i + 1])]
+            i = draw(st.sampled_from(pairs))
+            keep = sorted(idx - {i, i + 1})
+            drop = draw(st.permutations(keep))[: max(0, len(keep) - (m - 2))] if len(keep) > m - 2 else []
+            idx = (set(keep) - set(drop)) | {i, i + 1}
+            while len(idx) < m:
+                idx.add(draw(st.integers(0, len(pool) - 1)))
+        return [pool[i] for i in sorted(idx)][:m] if len(idx) >= m else [pool[i] for i in sorted(idx)]
     # float / mixed: floats (some integral-valued), strictly increasing
     vals = draw(st.lists(st.one_of(st.floats(-1e6, 1e6), st.integers(-20, 20).map(float), st.floats(-2.0, 2.0)),
                          min_size=m, max_size=m, unique=True))
@@ -370,7 +389,7 @@ def encodings(draw, classes, kinds=ALL_ENC):
     kind = draw(st.sampled_from(allowed))
     if kind == "omitted":
         return {}, kind
-    base = {"scores": "int_relabel", "scores_float": "float", "scores_small": "small_ints", "scores_huge": "huge"}.get(kind, kind)
+    base = {"scores": "int_relabel", "scores_float": "float", "scores_small": "small_ints", "scores_huge": "huge", "scores_runaway": "runaway"}.get(kind, kind)
     vals = draw(_increasing(m, base))
     for a, b in zip(vals, vals[1:]):
         assert a < b
@@ -378,7 +397,7 @@ def encodings(draw, classes, kinds=ALL_ENC):
     enc = [_alias(draw, vals[c], mixed) for c in classes]
     if kind == "mixed" and draw(st.booleans()):
         enc = [(_alias(draw, float(v), "mixed") if isinstance(v, int) and not isinstance(v, bool) and abs(v) < 2 ** 53 else v) for v in enc]
-    if kind in ("scores", "scores_float", "scores_small", "scores_huge"):
+    if kind in ("scores", "scores_float", "scores_small", "scores_huge", "scores_runaway"):
         return {"scores": [-v for v in enc]}, kind
     return {"ranks": enc}, kind
 
